@@ -1,1 +1,137 @@
-import MesaModel.Model.Devs
+import MesaModel.Proofs.Devs
+/-!
+# C14 — the simulators run each live event once, in (time, priority, FIFO) order
+
+Property theorems only (helper lemmas: `Proofs/Devs.lean`, model: `Model/Devs.lean`).
+`Reachable s`: every state reachable from a fresh simulator of either class by any interleaving of
+scheduling / cancelling / reference-dropping commands (issued at top level or from inside executing
+events), `setup`, `run_until` / `run_for` with a horizon not before the clock, `run_next_event`.
+Event ids are handed out in scheduling order, so "(time, priority, id)" is (time, priority, FIFO).
+-/
+namespace Mesa.Devs
+
+/-- The pending list of every reachable state is strictly sorted by (time, priority, id), holds only ids
+    handed out so far, and nothing in it lies before the clock. -/
+theorem C14_queue_sorted {s : Sim} (h : Reachable s) :
+    s.pending.Pairwise (fun a b => a.lt b = true) ∧ (∀ e ∈ s.pending, e.id < s.nextId) ∧
+    (∀ e ∈ s.pending, s.now ≤ e.time) :=
+  let w := (reachable_inv h).1; ⟨w.sorted, w.idlt, w.future⟩
+
+/-- The event a simulator executes next is live and is the least of all live pending events w.r.t.
+    (time, priority, order of scheduling). -/
+theorem C14_next_is_least_live {s : Sim} (h : Reachable s) {e : Ev} {rest : List Ev}
+    (hp : popLive s.pending = some (e, rest)) :
+    e ∈ s.pending ∧ e.cancelled = false ∧
+    ∀ y ∈ s.pending, y.cancelled = false → y = e ∨ e.lt y = true := by
+  obtain ⟨hl, hlt, _⟩ := popLive_spec (reachable_inv h).1.sorted hp
+  refine ⟨(popLive_mem hp).1, hl, fun y hy hyl => ?_⟩
+  rcases popLive_live_mem hp hy hyl with h | h
+  · exact Or.inl h
+  · exact Or.inr (hlt y h)
+
+/-- Exactly-once accounting: at every reachable state every event id handed out so far is in exactly one
+    of three places, exactly once — still pending, executed (in the log), or discarded without execution —
+    and no other id occurs anywhere. -/
+theorem C14_exactly_once_accounting {s : Sim} (h : Reachable s) (i : Nat) :
+    (ids s.pending).count i + (logIds s.log).count i + s.gone.count i = if i < s.nextId then 1 else 0 := by
+  simpa [Acc, AccH] using (reachable_inv h).2.1 i
+
+/-- No event is ever executed twice. -/
+theorem C14_never_twice {s : Sim} (h : Reachable s) : (logIds s.log).Nodup := by
+  rw [List.nodup_iff_count]
+  intro i
+  have := C14_exactly_once_accounting h i
+  split at this <;> omega
+
+/-- An event is discarded without execution only if it was cancelled or its callable was collected:
+    a pop hands out a live event, what it throws away is cancelled, and an execution logs the event
+    unless its callable is dead. -/
+theorem C14_only_cancelled_or_dead_discarded {s : Sim} {e : Ev} {rest : List Ev}
+    (hp : popLive s.pending = some (e, rest)) :
+    (∀ x ∈ skipped s.pending, x.cancelled = true) ∧ e.cancelled = false ∧
+    (e.dead = false → (logIds (exec (popped s e rest) e).log) = logIds s.log ++ [e.id]) ∧
+    (e.dead = true → (exec (popped s e rest) e).log = s.log) := by
+  refine ⟨skipped_cancelled, (popLive_decomp hp).2, ?_, ?_⟩
+  · intro hd
+    rw [exec_log]; unfold entryOf; rw [if_neg (by simp [hd])]
+    split <;> simp [logIds, popped, LogEntry.id]
+  · intro hd
+    rw [exec_log]; unfold entryOf; rw [if_pos hd]; simp [popped]
+
+/-- A cancelled event is never handed out for execution. -/
+theorem C14_cancelled_never_popped {l : List Ev} {e : Ev} {rest : List Ev}
+    (hp : popLive l = some (e, rest)) : e.cancelled = false := (popLive_decomp hp).2
+
+/-- While an event runs the clock equals the event's time, and that is the clock value it is logged with. -/
+theorem C14_clock_is_event_time (s : Sim) (e : Ev) (rest : List Ev) :
+    (exec (popped s e rest) e).now = e.time ∧
+    ∀ x ∈ entryOf (popped s e rest) e, x.clock = e.time := by
+  refine ⟨by rw [exec_now]; rfl, fun x hx => ?_⟩
+  rw [entryOf_clock x hx]; rfl
+
+/-- The clock never moves backwards: the clocks of all executions so far are non-decreasing and none
+    exceeds the current clock. -/
+theorem C14_clock_monotone {s : Sim} (h : Reachable s) :
+    (clocks s.log).Pairwise (· ≤ ·) ∧ ∀ c ∈ clocks s.log, c ≤ s.now :=
+  let c := (reachable_inv h).2.2; ⟨c.mono, c.le_now⟩
+
+/-- `run_until(T)` with `T` not before the clock: leaves the clock at `T`, leaves no live event with time
+    `≤ T` pending (including events scheduled by the events it executed), and executed only events with
+    time `≤ T`. -/
+theorem C14_run_until_post {s s' : Sim} {f : Nat} {T : Int} (h : Reachable s)
+    (hr : runUntil f s T = some s') :
+    s'.now = T ∧ (∀ y ∈ s'.pending, y.cancelled = false → T < y.time) ∧
+    ∃ new, s'.log = s.log ++ new ∧ ∀ x ∈ new, x.clock ≤ T :=
+  runUntil_post (reachable_inv h).1 hr
+
+/-- Scheduling is rejected exactly when the time lies before the clock (`Past`) or, otherwise, has the
+    wrong unit (`Unit`); a rejected call — caught by the caller — leaves the simulator unchanged. -/
+theorem C14_schedule_rejects_exactly (s : Sim) (t d : Int) (p a : Nat) :
+    (schedAbs s t p a = .error .past ↔ t < s.now) ∧
+    (schedAbs s t p a = .error .unit ↔ ¬ t < s.now ∧ okUnit s.kind t = false) ∧
+    (schedRel s d p a = .error .past ↔ d < 0) ∧
+    (schedRel s d p a = .error .unit ↔ ¬ d < 0 ∧ okUnit s.kind (s.now + d) = false) ∧
+    ((∃ err, schedAbs s t p a = .error err) → doCmd s (.schedAbs t p a) = s) ∧
+    ((∃ err, schedRel s d p a = .error err) → doCmd s (.schedRel d p a) = s) := by
+  refine ⟨?_, ?_, ?_, ?_, ?_, ?_⟩
+  · unfold schedAbs; split
+    · simp [*]
+    · split <;> simp [*]
+  · unfold schedAbs; split
+    · simp [*]
+    · split <;> simp_all
+  · unfold schedRel; split
+    · simp [*]
+    · split <;> simp [*]
+  · unfold schedRel; split
+    · simp [*]
+    · split <;> simp_all
+  · rintro ⟨err, h⟩; simp [doCmd, h]
+  · rintro ⟨err, h⟩; simp [doCmd, h]
+
+/-- Looking ahead shows the live events in the order they would execute: `peak_ahead n` is exactly what
+    `n` successive pops would hand out, and that sequence is strictly increasing in (time, priority, FIFO). -/
+theorem C14_peek_is_execution_order {s : Sim} (h : Reachable s) (n : Nat) :
+    peek s n = popSeq n s.pending ∧ (peek s n).Pairwise (fun a b => a.lt b = true) ∧
+    ∀ e ∈ peek s n, e.cancelled = false := by
+  refine ⟨(popSeq_eq n s.pending).symm, ?_, ?_⟩
+  · exact ((reachable_inv h).1.sorted.sublist (List.filter_sublist)).sublist (List.take_sublist _ _)
+  · intro e he
+    have := List.mem_of_mem_take he
+    simpa [Ev.live] using (List.mem_filter.mp this).2
+
+/-! non-vacuity: a concrete run with ties, nested scheduling and a cancellation -/
+section Example
+def exProg : Nat → List Cmd
+  | 1 => [.schedRel 0 5 0, .cancel 0]
+  | _ => []
+def ex0 : Sim := init .devs exProg []
+def ex1 : Sim := doCmd (doCmd (doCmd ex0 (.schedAbs 2048 5 0)) (.schedAbs 1024 10 1)) (.schedAbs 1024 1 0)
+example : Reachable ex1 := .cmd _ (.cmd _ (.cmd _ (.init _ _ _)))
+example : (ex1.pending.map (·.tag)) = [2, 1, 0] := by decide
+example : ((runUntil 10 ex1 4096).map fun s => (s.now, s.log.map (·.id), s.gone)) =
+    some (4096, [2, 1, 3], [0]) := by decide
+example : schedRel ex1 (-1) 5 0 = .error .past := rfl
+end Example
+
+end Mesa.Devs
